@@ -18,6 +18,7 @@ H = common.HELPERS
 TRANSFORMS = {
     "cat": ("cat", lambda b: b),
     "head100": ("head -c 100", lambda b: b[:100]),
+    "head5000": ("head -c 5000", lambda b: b[:5000]),
     "tail50": ("tail -c 50", lambda b: b[-50:] if len(b) > 50 else b),
     "double": (H + "/double.sh", lambda b: b + b),
     "const": (H + "/const.sh", lambda b: b"constant-output\n"),
